@@ -448,3 +448,157 @@ Example c14_nonvacuous_round5 :
                 d_misc := None; d_status := Some [80; 105; 100; 58; 9; 55; 55; 10]; d_modules := []; d_unloaded := [];
                 d_mems := [] |} = Some 77.
 Proof. vm_compute. repeat split. Qed.
+
+(* ==================================================================== round 5, second pass: from the BYTES of a dump *)
+From RM Require Import C02.Model C02.Proofs4.
+From RM Require Import C14.Model C14.Bytes C14.BytesProofs.
+
+(* The dump record the processor works on, computed from the bytes of a serialized dump model (C02: any subset of streams,
+   any item counts, either byte order, arbitrary leading directory entries), is the record read off the model directly;
+   processing succeeds exactly when the model has a system info and a thread list.  For EVERY CPU-context reader [rc].
+   Composition of c02_dump_roundtrip (Minidump::read + get_stream) with MinidumpInfo::new. *)
+Theorem c14_bytes_are_the_model : forall rc e m, wf_model e m = true ->
+  dump_of_bytes rc (encode_dump e m) = dump_of_model rc e m /\
+  (dump_of_model rc e m <> None <-> m_sysinfo m <> None /\ m_threads m <> None).
+Proof. intros rc e m H. split; [apply bytes_roundtrip; exact H|apply streams_required]. Qed.
+Print Assumptions c14_bytes_are_the_model.
+
+(* "Modules, unloaded modules, process id and times are those of the corresponding streams", end to end from the bytes:
+   the state's module list is the module list stream's (base, size) entries in order (all of them: a well-formed model has no
+   entry the reader drops), likewise the unloaded modules with their names; the dump time is the header's; process id and
+   create time are the misc info's fields under their flag bits, else the first Pid line of the Linux status stream. *)
+Theorem c14_bytes_streams : forall rc e m d, wf_model e m = true -> dump_of_bytes rc (encode_dump e m) = Some d ->
+  d_time d = m_time m /\
+  read_modules (d_modules d) = map module_of (opt_list (m_modules m)) /\
+  read_unloaded (d_unloaded d) = map unloaded_of (opt_list (m_unloaded m)) /\
+  process_id d = match m_misc m with
+                 | Some mi => if Z.testbit (nth 1 (snd mi) 0) 0 then Some (nth 2 (snd mi) 0) else None
+                 | None => option_map status_pid (m_lx_status m)
+                 end /\
+  process_create_time d = match m_misc m with
+                          | Some mi => if Z.testbit (nth 1 (snd mi) 0) 1 then Some (nth 3 (snd mi) 0) else None
+                          | None => None
+                          end.
+Proof. intros rc e m d Hwf Hd. rewrite (bytes_roundtrip rc e m Hwf) in Hd. exact (model_streams rc e m d Hwf Hd). Qed.
+Print Assumptions c14_bytes_streams.
+
+(* one call stack per entry of the thread list stream, in order, with the same ids; the name is the last entry of the thread
+   names stream for that id; a stack is marked skipped exactly when its id is the Breakpad info's dump-writer thread id *)
+Theorem c14_bytes_threads : forall rc e m d, wf_model e m = true -> dump_of_bytes rc (encode_dump e m) = Some d ->
+  map cs_id (threads_of d) = map th_id (opt_list (m_threads m)) /\
+  forall i cs, nth_error (threads_of d) i = Some cs ->
+    exists t, nth_error (opt_list (m_threads m)) i = Some t /\ cs_id cs = th_id t /\
+      cs_name cs = get_name (map tname_of (opt_list (m_tnames m))) (th_id t) /\
+      (bp_dump_tid (m_breakpad m) = Some (th_id t) <-> cs_info cs = CsDumpThreadSkipped).
+Proof. intros rc e m d Hwf Hd. rewrite (bytes_roundtrip rc e m Hwf) in Hd. exact (model_threads rc e m d Hd). Qed.
+Print Assumptions c14_bytes_threads.
+
+(* The requesting thread, end to end from the bytes: the LAST entry of the thread list stream whose id is the exception
+   stream's thread id - else, without an exception stream, the Breakpad info's requesting thread id under its validity bit -
+   and is not the Breakpad info's dump-writer thread id (under its own validity bit); none exactly when no entry qualifies
+   (exception thread id = dump-writer thread id, id absent from the thread list, neither stream).  Its walk - like that of every
+   entry with that id - starts from the exception stream's context when [rc] can read it, else from the thread's own. *)
+Theorem c14_bytes_requesting_thread : forall rc e m d, wf_model e m = true -> dump_of_bytes rc (encode_dump e m) = Some d ->
+  match requesting_thread d with
+  | Some i => (exists t, nth_error (opt_list (m_threads m)) i = Some t /\ named_requesting (m_exception m) (m_breakpad m) t) /\
+              forall j t, (i < j)%nat -> nth_error (opt_list (m_threads m)) j = Some t ->
+                          ~ named_requesting (m_exception m) (m_breakpad m) t
+  | None => forall j t, nth_error (opt_list (m_threads m)) j = Some t -> ~ named_requesting (m_exception m) (m_breakpad m) t
+  end /\
+  forall s i t cs, m_sysinfo m = Some s ->
+    nth_error (opt_list (m_threads m)) i = Some t -> nth_error (threads_of d) i = Some cs ->
+    bp_dump_tid (m_breakpad m) <> Some (th_id t) ->
+    (named_requesting (m_exception m) (m_breakpad m) t ->
+       cs_ctx cs = match opt_and_then (m_exception m) (fun x => read_ctx rc e (si_arch s) (ex_ctx x)) with
+                   | Some c => Some (FromException, c)
+                   | None => tag_ctx FromThread (read_ctx rc e (si_arch s) (th_ctx t))
+                   end) /\
+    (~ named_requesting (m_exception m) (m_breakpad m) t ->
+       cs_ctx cs = tag_ctx FromThread (read_ctx rc e (si_arch s) (th_ctx t))).
+Proof.
+  intros rc e m d Hwf Hd. rewrite (bytes_roundtrip rc e m Hwf) in Hd. split; [exact (model_requesting rc e m d Hd)|].
+  intros s i t cs Hs Ht Hcs Hdt. exact (model_context rc e m d s i t cs Hd Hs Ht Hcs Hdt).
+Qed.
+Print Assumptions c14_bytes_requesting_thread.
+
+(* The same choice for ANY file the reader accepts (not only serialized models: hostile directories, unreadable optional
+   streams): in terms of what get_stream serves - an exception / Breakpad info stream that is missing OR unreadable counts as absent. *)
+Theorem c14_file_requesting_thread : forall rc bs v d, decode_dump bs = Some v -> dump_of_bytes rc bs = Some d ->
+  exists s ts, v_sysinfo v = SOk s /\ v_threads v = SOk ts /\
+  let exc := sres_opt (v_exception v) in let bp := sres_opt (v_breakpad v) in
+  map cs_id (threads_of d) = map th_id ts /\
+  match requesting_thread d with
+  | Some i => (exists t, nth_error ts i = Some t /\ named_requesting exc bp t) /\
+              forall j t, (i < j)%nat -> nth_error ts j = Some t -> ~ named_requesting exc bp t
+  | None => forall j t, nth_error ts j = Some t -> ~ named_requesting exc bp t
+  end.
+Proof. exact file_requesting. Qed.
+Print Assumptions c14_file_requesting_thread.
+
+(* unloaded modules with per-frame offsets, end to end from the bytes, both build profiles: the subtraction never traps; a frame
+   inside a module of the module list stream lists nothing; otherwise the listed (name, offset) pairs are exactly
+   instruction - base for every entry of the unloaded module list stream whose range contains the instruction *)
+Theorem c14_bytes_unloaded_offsets : forall rc p e m d x, wf_model e m = true -> dump_of_bytes rc (encode_dump e m) = Some d ->
+  0 <= x < two64 ->
+  exists l, frame_unloaded p d x = Ret l /\
+    (module_at (map module_of (opt_list (m_modules m))) x <> None -> l = []) /\
+    (module_at (map module_of (opt_list (m_modules m))) x = None ->
+       forall nm off, In (nm, off) l <->
+         exists i u r, nth_error (opt_list (m_unloaded m)) i = Some u /\ nm = pack_units (um_name u) /\
+                       mk_range (um_base u) (um_size u) = Some r /\ contains r x = true /\ off = x - um_base u) /\
+    (forall nm off, In (nm, off) l -> 0 <= off < two64).
+Proof. intros rc p e m d x Hwf Hd Hx. rewrite (bytes_roundtrip rc e m Hwf) in Hd. exact (model_offsets rc p e m d x Hwf Hd Hx). Qed.
+Print Assumptions c14_bytes_unloaded_offsets.
+
+(* names are kept apart: the integer a UTF-16 name is carried as determines the name *)
+Theorem c14_names_injective : forall u1 u2,
+  Forall (fun x => 0 <= x < 65536) u1 -> Forall (fun x => 0 <= x < 65536) u2 -> pack_units u1 = pack_units u2 -> u1 = u2.
+Proof. exact pack_units_inj. Qed.
+Print Assumptions c14_names_injective.
+
+(* ---- non-vacuity: an ARM / Linux dump model (3 threads, ids 5 9 7; exception on thread 7; Breakpad info: dump-writer 9,
+   requesting 5, both valid; misc info with the process-id flag only; 2 modules; 2 overlapping unloaded modules; names for 7
+   twice) is well formed in both byte orders, and the bytes the serializer writes for it are processed to: *)
+Definition bx_ctx (pc sp : Z) : list Z :=
+  flat_map (enc_uint LE 4) ([1073741826] ++ repeat 0 13 ++ [sp; 0; pc; 0]) ++ repeat 0 296.
+Definition bx_thread (id pc sp : Z) : mthread :=
+  {| th_id := id; th_suspend := 0; th_pclass := 0; th_prio := 0; th_teb := 0; th_stack_base := sp;
+     th_stack := None; th_ctx := Some (bx_ctx pc sp) |}.
+Definition bx_module (b s : Z) : mmodule :=
+  {| md_base := b; md_size := s; md_checksum := 0; md_time := 0; md_name := [109]; md_ver := repeat 0 13; md_cv := CvNone;
+     md_misc := (0, 0); md_res := [0; 0; 0; 0] |}.
+Definition bx_model : model :=
+  {| m_version := 42899; m_checksum := 0; m_time := 1262805309; m_flags := 0; m_extra_dir := []; m_pad_lists := false;
+     m_sysinfo := Some {| si_arch := 5; si_level := 0; si_revision := 0; si_nproc := 1; si_ptype := 0; si_major := 0; si_minor := 0;
+                          si_build := 0; si_platform := 33281; si_suite := 0; si_reserved2 := 0; si_cpu := repeat 0 24; si_csd := Some [] |};
+     m_threads := Some [bx_thread 5 4096 65536; bx_thread 9 8192 65600; bx_thread 7 20500 65700];
+     m_modules := Some [bx_module 4096 4096; bx_module 1879048192 65536];
+     m_memory := None; m_memory64 := None;
+     m_exception := Some {| ex_thread_id := 7; ex_align := 0; ex_code := 11; ex_flags := 1; ex_record := 0; ex_address := 3735928559;
+                            ex_nparams := 0; ex_align2 := 0; ex_info := repeat 0 15; ex_ctx := Some (bx_ctx 20480 65800) |};
+     m_tnames := Some [(7, [110; 49]); (5, [110; 50]); (7, [110; 51])];
+     m_unloaded := Some [ {| um_base := 20000; um_size := 1000; um_checksum := 0; um_time := 0; um_name := [117; 49] |};
+                          {| um_base := 20400; um_size := 4096; um_checksum := 0; um_time := 0; um_name := [117; 50] |} ];
+     m_meminfo := None;
+     m_misc := Some (1, [24; 1; 4242; 77; 0; 0]);
+     m_breakpad := Some [3; 9; 5];
+     m_assertion := None; m_thread_info := None; m_lx_cpuinfo := None;
+     m_lx_status := Some [80; 105; 100; 58; 9; 55; 10];
+     m_lx_lsb := None; m_lx_environ := None; m_lx_maps := None; m_lx_limits := None; m_handles := None |}.
+Example c14_nonvacuous_bytes :
+  wf_model LE bx_model = true /\ wf_model BE bx_model = true /\
+  match dump_of_bytes ctx_of_bytes (encode_dump LE bx_model) with
+  | Some d =>
+      map cs_id (threads_of d) = [5; 9; 7] /\
+      map cs_name (threads_of d) = [Some (pack_units [110; 50]); None; Some (pack_units [110; 51])] /\
+      map cs_info (threads_of d) = [CsOk; CsDumpThreadSkipped; CsOk] /\
+      requesting_thread d = Some 2%nat /\
+      map cs_ctx (threads_of d) = [Some (FromThread, {| c_ip := 4096; c_sp := 65536 |}); None;
+                                   Some (FromException, {| c_ip := 20480; c_sp := 65800 |})] /\
+      process_id d = Some 4242 /\ process_create_time d = None /\ d_time d = 1262805309 /\
+      read_modules (d_modules d) = [(4096, 4096); (1879048192, 65536)] /\
+      frame_unloaded Debug d 20480 = Ret [(pack_units [117; 49], 480); (pack_units [117; 50], 80)] /\
+      frame_unloaded Release d 4100 = Ret []
+  | None => False
+  end.
+Proof. vm_compute. repeat split. Qed.
